@@ -5,7 +5,8 @@
                 Model.step ends in exactly the observed results, bytes read and sendmsg calls; otherwise what the model predicts.
    spec  field: OK when the observation satisfies the property (Spec.task_ok for every task), `-` when the transport did
                 not fail in this run; otherwise which task breaks it.
-   class field: addmatch_race when the replay ends in a state of the known deviation class (Spec.raced). *)
+   class field: `-` (the former class addmatch_race, Spec.raced, is empty since fix 3703ee13: Progress.never_raced; the test
+                stays so that a model edit that re-opens it shows up). *)
 From ZV Require Import Base.Bytes Base.Res C38.Model C38.Spec.
 
 Definition nat_of_dec (s : bytes) : option nat := option_map N.to_nat (N_of_dec s).
